@@ -6,7 +6,7 @@ from ..engine import Finding
 
 ID = 'C18'
 TITLE = 'decorators are transparent: same results, same signature, no double wrapping'
-LEAN_FILES = ['Basic', 'Bind', 'Cache', 'Wrap', 'WrapHist', 'Try', 'BindDriver', 'Cmp', 'BindLemmas', 'CacheLemmas', 'CacheKeyLemmas', 'WrapLemmas', 'WrapHistLemmas', 'WrapHistSharp', 'Pd2npLemmas', 'ResDec', 'C18']
+LEAN_FILES = ['Basic', 'Bind', 'Cache', 'Wrap', 'WrapHist', 'Try', 'BindDriver', 'Cmp', 'BindLemmas', 'CacheLemmas', 'CacheKeyLemmas', 'WrapLemmas', 'WrapHistLemmas', 'WrapHistSharp', 'Pd2npLemmas', 'ResDec', 'C18', 'WrapLoops', 'WrapLoopsLemmas', 'Lift']
 RULE = ('distinct protocol lines (inside the domain of the model) on which the implementation returned a value: a (signature, call) pair bound / called / '
         'round-tripped, a (signature, decorator stack, call) triple, a construction sequence of wrappers, or a cache history '
         '(on a cached function or through a decorator stack) with at least two calls; calls without any argument on a parameterless function are not counted')
@@ -18,7 +18,7 @@ ASSUMPTIONS = ['CPython call protocol = the reference binder bindRef of the mode
                'wrapper equality is compared on class, parameters and wrapped function recursively, ignoring the memo field function_fullargspec',
                'cache keys: arguments are ints/floats/bools/strings/None, lists/tuples/dicts of them, sets of ints and int ndarrays (written as ~set:/~arr: strings on the wire); "the same combination" = python == of (args, kwargs) (1 == 1.0 == True, keyword order irrelevant, [1] != (1,), {"a":1} != (("a",1),)); NaN arguments are not generated (nan != nan: every call is a new combination)',
                'several objects alive at once (stackhist3): a constructor returns a NEW chain and leaves its operand as it is; the dict of a cache layer exists from the layer\'s first call on and is shared with every copy made afterwards (model of the repaired constructor, P7)',
-               'the stack model covers loops on arguments that are not a list / tuple / dict of one of ITS looped types (inDomain); lines outside are declined by the driver (bad-op) and only the verdict is compared']
+               'the stack model covers loops on arguments that are not a list / tuple / dict of one of ITS looped types (inDomain); `stack` lines outside are declined by the driver (bad-op) and only the verdict is compared; `stackx` lines are answered everywhere by the looping model evalChainL (WrapLoops.lean), which is evalChain inside the domain (theorem evalChainL_in_domain) and a model extension outside (C19 subject: a disagreement there is a divergence)']
 EXHAUSTIVE = {'quick': False, 'thorough': False}
 EXTRA = {}
 
@@ -245,6 +245,11 @@ def cache_arg(rng, unhashable=False):
         return ('~set:' if r < 0.25 else '~arr:') + ','.join(map(str, xs))
     if r < 0.12:
         return '~none'           # makes the generated function return None (see `body`)
+    if r < 0.2:
+        # round k6 (review t5, fidelity 4): ORDERED mappings - two OrderedDicts with the same items in another order are != for python,
+        # hence different combinations (`~od:ab:n` / `~od:ba:n`); a dict whose keys cannot be sorted (`~mk:n` = {None: n, 'a': n + 1},
+        # built in alternating insertion order by `unmark`) is ONE combination however it was built
+        return rng.choice(['~od:ab:1', '~od:ba:1', '~od:ab:1', '~od:ba:1', '~mk:1', '~mk:1', '~mk:2'])
     if r < 0.5:
         # -1 / -2 and 0 / 2**61-1 have the same python hash: distinct combinations whatever the cache keys on (seeded C18-u1: the cache
         # keyed by hash(key))
@@ -271,7 +276,14 @@ def seq_twin(rng, v):
         return list(v)
     if isinstance(v, dict):
         return tuple(sorted(v.items(), key=lambda kv: kv[0]))
+    if isinstance(v, str) and v.startswith('~od:ab:'):
+        return '~od:ba:' + v[7:]           # the same items in the other order: a different OrderedDict
+    if isinstance(v, str) and v.startswith('~od:ba:'):
+        return '~od:ab:' + v[7:]
     return v
+
+
+_MK = [0]
 
 
 class D2(dict):
@@ -298,6 +310,10 @@ def mark(v):
         return '~d2:%d' % v['x'] if list(v) == ['x'] and getattr(v, 'extra', None) == 'e' else '~d2?:%r' % (v,)
     if type(v) is L1:
         return '~l1:%d' % len(v) if list(v) == list(range(len(v))) else '~l1?:%r' % (v,)
+    if type(v) is collections.OrderedDict:
+        return '~od:%s:%d' % (''.join(v), v['a']) if sorted(v) == ['a', 'b'] and v['b'] == v['a'] + 1 else '~od?:%r' % (v,)
+    if type(v) is dict and len(v) == 2 and None in v and 'a' in v:
+        return '~mk:%d' % v[None] if v['a'] == v[None] + 1 else '~mk?:%r' % (v,)
     if isinstance(v, (set, frozenset)):
         return '~set:' + ','.join(str(int(x)) for x in sorted(v))
     # round j6: other arguments the key normalisation leaves unhashable, under the prefix the model reads as "unhashable, not an int array":
@@ -328,6 +344,14 @@ def unmark(v, rng=None):
         return D2({'x': int(v[4:])}, 'e')
     if isinstance(v, str) and v.startswith('~l1:'):
         return L1(int(v[4:]))
+    if isinstance(v, str) and v.startswith('~od:'):
+        n = int(v[7:])
+        return collections.OrderedDict((k, n + 'ab'.index(k)) for k in v[4:6])
+    if isinstance(v, str) and v.startswith('~mk:'):
+        n = int(v[4:])
+        _MK[0] += 1            # the SAME dict for python, built in the other insertion order every other time
+        items = [(None, n), ('a', n + 1)]
+        return dict(items if _MK[0] % 2 else items[::-1])
     if isinstance(v, str) and v.startswith('~set:'):
         xs = [int(x) for x in v[5:].split(',') if x]
         return set(reversed(xs))
@@ -618,6 +642,41 @@ def generate(rng, tier):
         line = '(deco stack %s %s %s %s)' % (sig_enc(sig), decos_enc(ds), enc(args), enc(kw))
         yield dict(tag='stack len=%d loops with a %s first argument of a %s type' % (len(ds), type(v).__name__, 'looped' if outside_loops_domain(line) else 'non-looped'),
                    lines=[line])
+    # round k6: `stackx` lines - the model whose loops layers LOOP (PygModel/WrapLoops.lean, evalChainL) answers every line: a list /
+    # tuple / dict first argument of a looped type (one call of the layers below per element, at every depth, companions selected
+    # by position / key as in C19, raising leaves, empty containers) and of a non-looped type (forwarded whole); inside the domain
+    # evalChainL = evalChain is a theorem (evalChainL_in_domain), outside it the lines are a MODEL EXTENSION (C19's subject)
+    xconts = conts + [[1, '!v', 3], {'p': [1, 2], 'q': (3, '!k')}, [[1, 2], [3, 4]], [(1, 2), {'p': 5}], {'q': 1, 'p': 2}, [[]], ([], ())]
+    xtypes = [['list'], ['tuple'], ['dict'], ['list', 'tuple'], ['dict', 'list'], ['list', 'tuple', 'dict']]
+    for _ in range(300 if q else 6000):
+        sig, args, kw = rng.choice(withfirst)
+        args, kw = list(args), dict(kw)
+        v = rng.choice(xconts)
+        if args:
+            args[0] = v
+        else:
+            kw[sig[0][0]] = v
+        # companions: another argument becomes a container as long as v (matched element by element), of another length
+        # (searched / broadcast) or stays a scalar
+        if isinstance(v, (list, tuple)) and rng.random() < 0.5:
+            comp = rng.choice([[10 * (j + 1) for j in range(len(v))], tuple('c%d' % j for j in range(len(v))), [7, 8, 9, 10, 11], {'p': 1}])
+            if len(args) > 1 and rng.random() < 0.5:
+                args[-1] = comp
+            else:
+                ks = [k for k in kw if not (sig[0] and k == sig[0][0])]
+                if ks:
+                    kw[rng.choice(sorted(ks))] = comp
+        if isinstance(v, dict) and rng.random() < 0.5:
+            comp = rng.choice([{k: 'c' + k for k in reversed(list(v))}, {'zz': 1}, [1, 2]])
+            if len(args) > 1:
+                args[-1] = comp
+        cl = ['loops'] + rng.sample([c for c in CLASSES if c != 'loops'], rng.choice([0, 0, 1, 2]))
+        rng.shuffle(cl)
+        ds = [(c, dict(types=rng.choice(xtypes)) if c == 'loops' else deco_params(rng, c)) for c in cl]
+        line = '(deco stackx %s %s %s %s)' % (sig_enc(sig), decos_enc(ds), enc(args), enc(kw))
+        yield dict(tag='stackx len=%d loops on a %s of a %s type' % (len(ds), type(v).__name__, 'looped' if outside_loops_domain(line) else 'non-looped'),
+                   lines=[line])
+    yield dict(tag='presets try_nan .. try_list', lines=['(deco presets)'])
     # construction: every sequence of <= 4 constructor applications (the same class may re-occur at any distance)
     seqs = list(itertools.product(CLASSES, repeat=4))
     for k in (1, 2, 3):
@@ -661,6 +720,19 @@ def res_val(fn):
 def run_line(state, sx):
     import pyg_base
     op, a = sx[1], sx[2:]
+    if op == 'presets':
+        # the preset try_* wrappers of the package: each must be a try_value TEMPLATE (no function yet) that catches on the first
+        # attempt (repeat = 0) and returns its value; the model lists (name, value) - `tryPresets` of PygModel/Try.lean
+        from pyg_base._decorators import try_value
+        out = []
+        for nm in ('try_nan', 'try_zero', 'try_none', 'try_true', 'try_false', 'try_list'):
+            w = getattr(pyg_base, nm)
+            if w is try_value:          # try_none IS the class (its default value is None): the template it makes
+                w = try_value()
+            if type(w) is not try_value or w.repeat != 0 or not w.return_value or w.function is not None:
+                raise AssertionError('%s is not a plain try_value template' % nm)
+            out.append((nm, w.value))
+        return 'ok ' + enc(out)
     if op == 'mk':
         g = make_fn((['a', 'b'], [1], None, None))
         base = g
@@ -753,7 +825,7 @@ def run_line(state, sx):
                 r = res_val(lambda: g(*args, **kw))
                 out.append((r, Counter.n))
         return 'ok ' + enc(out)
-    if op == 'stack':
+    if op in ('stack', 'stackx'):
         g = f
         for cls, params in decos_dec(a[1]):
             g = construct(cls, params, g)
@@ -789,7 +861,7 @@ def outside_loops_domain(line):
     dispatches on a list / tuple / dict of one of its `types`: the wrapper loops over it - outside "loops on non-container input".
     No other layer changes the kind of the first argument (kwargs_support keeps declared keywords, pd2np rebuilds containers)"""
     sx = proto.parse(line)
-    if sx[1] != 'stack':
+    if sx[1] not in ('stack', 'stackx'):
         return False
     params = sig_dec(sx[2])[0]
     types = None
@@ -820,6 +892,10 @@ def compare(case, i, line, ir, mr):
         return None
     tag = case.get('tag', '')
     op = proto.parse(line)[1]
+    if op == 'stackx' and outside_loops_domain(line):
+        # loops on a container of a looped type is property C19's subject, outside "loops on non-container input": the looping
+        # stack model is an extension there
+        return ('divergence', 'loops on a container of a looped type (model extension evalChainL): implementation %s, model %s' % (ir, mr))
     if 'invalid' in tag and op in ('getcallargs', 'roundtrip'):
         return ('divergence', 'invalid call (the property is about valid calls): implementation %s, model %s' % (ir, mr))
     if op == 'bindref':
@@ -1182,6 +1258,47 @@ def laws(rng, tier, ctx):
             if got != exp:
                 yield Finding('violation', dict(tag='law-try-back', lines=['(deco stack %s %s %s %s)' % (sig_enc(sig), decos_enc([('try_back', {})]), enc(a), enc(k))]),
                               'try_back gives %r, expected %r' % (got, exp))
+    # (4b) "exactly when f raises" and exceptions that are NOT `Exception`s (KeyboardInterrupt, SystemExit, GeneratorExit, a
+    # user BaseException): the handlers are `except Exception`, so the wrapper raises what f raises instead of returning the
+    # fallback - the text is false of the code there (known finding K8: the wrapper must then raise THE exception object f
+    # raised, after exactly repeat+1 attempts ... nothing else is accepted by the matcher)
+    from pyg_base import try_none, try_zero, try_list
+    from pyg_base._decorators import kwargs_support
+
+    class _Base(BaseException):
+        pass
+    raised_objs = []
+
+    def _mk_base(exc_cls):
+        def fb(a, b=2):
+            Counter.n += 1
+            e = exc_cls('stop')
+            raised_objs.append(e)
+            raise e
+        return fb
+    for exc_cls in (_Base, KeyboardInterrupt, SystemExit, GeneratorExit):
+        for nm, build, attempts_ in (('try_value(repeat=0)', lambda f: try_value(f, value='FB'), 1),
+                                     ('try_value(repeat=2)', lambda f: try_value(f, repeat=2, value='FB'), 1),
+                                     ('try_none', try_none, 1), ('try_zero', try_zero, 1), ('try_list', try_list, 1),
+                                     ('try_back', try_back, 1),
+                                     ('try_none(kwargs_support(f))', lambda f: try_none(kwargs_support(f)), 1)):
+            count += 1
+            fb = _mk_base(exc_cls)
+            w = build(fb)
+            Counter.n = 0
+            del raised_objs[:]
+            try:
+                got = ('returned', w(1))
+            except BaseException as e:        # noqa: the point of the law
+                got = ('raised', e)
+            n = Counter.n
+            if got[0] == 'returned' and n >= 1:
+                continue        # a fallback (or the first argument) was returned: what the text says
+            same = got[0] == 'raised' and raised_objs and got[1] is raised_objs[-1] and n == attempts_
+            yield Finding('violation', dict(tag='law-try-base-exception known:K8' if same else 'law-try-base-exception', lines=[],
+                                            values=[nm, exc_cls.__name__, got[0], n]),
+                          '%s(f)(1) where f raises %s: the text says the fallback is returned, the wrapper %s after %d execution(s) of f'
+                          % (nm, exc_cls.__name__, 'raises that exception' if got[0] == 'raised' else 'returns %r' % (got[1],), n))
     # (5) kwargs_support on a function without **kwargs ignores exactly the undeclared keywords
     from pyg_base._decorators import kwargs_support
     for sig, args, kw in allcalls:
@@ -1254,6 +1371,38 @@ def laws(rng, tier, ctx):
             k5 = k5_only
             yield Finding('violation', dict(case, tag='law-cache-ndarray' if k5 else 'law-cache'),
                           'cached function does not evaluate once per distinct combination / return the first result: %s' % enc(list(failing[0])))
+    # (6b) the PUBLIC entry point `pyg_base.cache` (the property names `cache`; everything above uses `cache_func`): every
+    # signature whose parameters are named like the library's own, and a sample of the plain ones, must be cached like
+    # `cache_func` does - `cache` refuses a function whose FIRST parameter is called self / cls ("cannot cache method"):
+    # known finding K9, recognised only by that very ValueError at decoration time
+    pubsigs = list(reserved_sigs()) + [(['cls', 'b'], [DEFAULTS[0]], None, None), (['cls'], [], None, 'kw'), (['a', 'cls'], [DEFAULTS[1]], 'va', None)]
+    pubsigs += [sigs[i] for i in range(0, len(sigs), 7)]
+    for sig in pubsigs:
+        f = make_fn(sig)
+        count += 1
+        try:
+            c = pyg_base.cache(f)
+        except Exception as e:
+            k9 = bool(sig[0]) and sig[0][0] in ('self', 'cls') and isinstance(e, ValueError) and str(e) == 'cannot cache method'
+            yield Finding('violation', dict(tag='law-cache-public known:K9' if k9 else 'law-cache-public', lines=[], values=[repr(sig), repr(e)]),
+                          'pyg_base.cache(f) for f%r raises %r at decoration time: not "any function f"' % (sig[0], e))
+            continue
+        calls = list(valid_calls(sig))[:6]
+        bad = None
+        n = 0
+        for rnd in (0, 1):
+            for args, kw in calls:
+                exp = f(*args, **kw)
+                Counter.n = 0
+                got = res_val(lambda: c(*args, **kw))
+                n += Counter.n
+                if got != exp:
+                    bad = 'cache(f)(*%r, **%r) = %r, f gives %r' % (args, kw, got, exp)
+        nkeys = len({ref_key(list(a), dict(k)) for a, k in calls})
+        if bad is None and n != nkeys:
+            bad = '%d executions of f for %d distinct combinations called twice' % (n, nkeys)
+        if bad:
+            yield Finding('violation', dict(tag='law-cache-public', lines=[], values=[repr(sig)]), 'pyg_base.cache: ' + bad)
     # (7) a constructor does not change what an EXISTING decorated function answers: x is built and called (a valid call, a
     # raising call, the valid call again), further objects are built on top of x (or of each other) and never called, then x
     # gets the same three calls again: the same replies, and a non-raising call executes f once - or not at all when x holds a
@@ -1315,10 +1464,23 @@ def _k5(f):
     return f.case.get('tag') == 'law-cache-ndarray'
 
 
+def _k8(f):
+    """law 4b: the wrapped function raised a BaseException that is not an Exception and the try_* wrapper raised THAT object
+    after one execution (nothing else - a wrong value, another exception, more executions - is K8)"""
+    return f.kind == 'violation' and f.case.get('tag') == 'law-try-base-exception known:K8' and not f.case.get('lines')
+
+
+def _k9(f):
+    """law 6b: pyg_base.cache refused a function whose first parameter is called self / cls with its own ValueError"""
+    return f.kind == 'violation' and f.case.get('tag') == 'law-cache-public known:K9' and not f.case.get('lines')
+
+
 MATCHERS = {'kwargs_support_drops_undeclared_keyword_of_varkw_function': _k1,
             'loops_consumes_keyword_called_axis': _k4,
             'cache_reevaluates_ndarray_argument': _k5,
-            'pd2np_converts_int_array_to_float': _k6}
+            'pd2np_converts_int_array_to_float': _k6,
+            'try_wrappers_do_not_catch_base_exceptions': _k8,
+            'public_cache_refuses_first_parameter_self_or_cls': _k9}
 
 
 def shrink(case, still_fails):
